@@ -140,7 +140,8 @@ class TraitSet(set):
         added : set
             The new items that have been added to the set.
         """
-        for notifier in self.notifiers:
+        # (a notifier may remove itself, or add another, while it is called)
+        for notifier in list(self.notifiers):
             notifier(self, removed, added)
 
     # -- set interface -------------------------------------------------------
